@@ -211,14 +211,18 @@ class MetadataManager:
                             # names another committed version, someone committed
                             # between validation and this read: a CAS keyed to the
                             # NEW ETag would succeed and silently drop that commit.
-                            if (
-                                validated_info is not None
-                                and parsed[1] != validated_info[1]
-                                and self.storage.exists(f"{self.metadata_path}/{parsed[1]}")
-                            ):
-                                raise ConcurrentModificationException(
-                                    "Version hint changed between validation and the ETag read; retrying"
-                                )
+                            if validated_info is not None and parsed[1] != validated_info[1]:
+                                if self.storage.exists(f"{self.metadata_path}/{parsed[1]}"):
+                                    raise ConcurrentModificationException(
+                                        "Version hint changed between validation and the ETag read; retrying"
+                                    )
+                                # The hint is well formed but DANGLING (its target is
+                                # missing) and the version we validated was recovered by
+                                # scanning. Number the new file after the VALIDATED version:
+                                # numbering it after the dangling hint (e.g. "0") would write
+                                # v1 next to an existing v3, and the next recovery scan would
+                                # resolve to v3 - silently dropping this commit.
+                                filesystem_version, previous_metadata_file = validated_info
                     except FileNotFoundError:
                         hint_etag = None
                 if filesystem_version is None:
